@@ -65,7 +65,7 @@ def _init():
 
 
 def zlabel(k, nest):
-    if nest == "community":
+    if nest in ("community", "region"):
         return f"Site/Z{k}"
     if nest == "subsite":
         return "North/Z1" if k == 1 else f"Z{k}"          # zone 1 lives in a site inside the site
@@ -80,6 +80,8 @@ def zone_tree_for(z, nest):
     leaf = lambda k: dict(name=f"Z{k}", type="Process Zone", children=None)
     if nest == "community":
         return dict(name="Town", type="Community", children=[dict(name="Site", type="Site", children=[leaf(k) for k in zs])])
+    if nest == "region":
+        return dict(name="Land", type="Region", children=[dict(name="Site", type="Site", children=[leaf(k) for k in zs])])
     if nest == "subsite":
         kids = [dict(name="North", type="Site", children=[leaf(1)])] + [leaf(k) for k in zs if k != 1]
     else:
@@ -107,8 +109,14 @@ def request(S, z, ladder, emb: Emb, with_units=False, nest=False, twin=0):
                   heat_flow=num(emb.Q(70.0), "kW"), dt_cont=num(emb.dT(u.get("dtc", 0)), "degC"), htc=num(1.0, "kW/m2K"), price=num(1.0, "$/MWh"),
                   active=bool(u.get("active", True))) for u in ladder]
     req = dict(streams=streams, utilities=utils, options={"DT_CONT": emb.dT(50), "DT_PHASE_CHANGE": emb.dT(10)})
-    if nest in ("tree", "treerev", "subsite", "community"):
+    if nest in ("tree", "treerev", "subsite", "community", "region"):
         req["zone_tree"] = zone_tree_for(z, nest)
+    if nest == "twinobj" and twin:
+        # a validated request model in which the two identical branches are one and the same schema object
+        from OpenPinch.lib.schema import TargetInput, StreamSchema, UtilitySchema
+        objs = [StreamSchema(**d) for d in streams]
+        objs[twin] = objs[twin - 1]
+        req = TargetInput(streams=objs, utilities=[UtilitySchema(**u) for u in utils], options=req["options"])
     if nest == "ops":
         req["options"]["DO_DIRECT_OPERATION_TARGETING"] = True
     return req
@@ -197,9 +205,9 @@ def graphs_differ(base_sig, var_sig, g, emb_b: Emb, emb_v: Emb):
 def one_run(g, S, z, ladder, emb, extra_checks, twin=0):
     run = dict(g=g, S=S, z=z, recs=[], err="", dtDefault=60, py=[])
     try:
-        nest = g if g in ("dup", "tree", "treerev", "subsite", "community", "ops") else g == "nest"
+        nest = g if g in ("dup", "tree", "treerev", "subsite", "community", "region", "ops", "twinobj") else g == "nest"
         req = request(S, z, ladder, emb, with_units=(g == "perm"), nest=nest, twin=twin)
-        out, mz = _OP["service"](req, project_name=("Town" if g == "community" else "Site"), is_return_full_results=True)
+        out, mz = _OP["service"](req, project_name={"community": "Town", "region": "Land"}.get(g, "Site"), is_return_full_results=True)
         recs = project(out, emb, nest)
         # C14: exactly one direct-integration record per site / process zone of the prepared tree
         names = [t.name for t in out.targets]
@@ -226,7 +234,7 @@ def one_run(g, S, z, ladder, emb, extra_checks, twin=0):
             run["err"] = "non-finite number in a record"
         else:
             run["recs"] = recs
-        if g in ("base", "perm", "split", "split2", "parallel", "zoneswap", "translate", "scale", "tree", "treerev", "community"):
+        if g in ("base", "perm", "split", "split2", "parallel", "zoneswap", "translate", "scale", "tree", "treerev", "community", "region", "twinobj"):
             run["gsig"] = graph_signature(out, emb)
         if extra_checks:
             # C14 structural clauses that are about the Python object, not about numbers
@@ -243,7 +251,7 @@ def one_run(g, S, z, ladder, emb, extra_checks, twin=0):
                 return True
             if not finite(back) or not finite(out.model_dump()):
                 run["py"].append("C14.only_finite_numbers")
-            out2 = _OP["service"](request(S, z, ladder, emb, with_units=(g == "perm"), nest=nest, twin=twin), project_name=("Town" if g == "community" else "Site"))
+            out2 = _OP["service"](request(S, z, ladder, emb, with_units=(g == "perm"), nest=nest, twin=twin), project_name={"community": "Town", "region": "Land"}.get(g, "Site"))
             if out2.model_dump_json() != js:
                 run["py"].append("C14.repeat_call_identical")
             if set(out.graphs or {}) != {t.name for t in out.targets}:
